@@ -102,6 +102,28 @@ def run(ctx):
     progress(ctx, F)
 
 
+_READS = {}
+
+
+def performs_read(F, t):
+    """the call reads from the source and can fail: a byteorder / read_exact primitive, or a local function returning a Result
+    that reaches one (through its own calls, closures and fn items)"""
+    d = mir.callee_decl(t) or ""
+    if d.startswith("byteorder::ReadBytesExt::") or d == "std::io::Read::read_exact":
+        return True
+    if not (t.get("dest") or {}).get("ty", "").startswith("std::result::Result<"):
+        return False
+    g = util.local_fn(F, mir.callee_def(t) or d)
+    if g is None:
+        return False
+    k = g["def"]
+    if k not in _READS:
+        fns = [g] + [util.local_fn(F, x) for x in util.reachable_defs(F, g, depth=5)]
+        _READS[k] = any(h is not None and any((mir.callee_decl(t2) or "").startswith("byteorder::ReadBytesExt::") or
+                                              mir.callee_decl(t2) == "std::io::Read::read_exact" for _, t2 in mir.calls(h)) for h in fns)
+    return _READS[k]
+
+
 def counter_and_limit(ps):
     """the position counter and its limit: the two fields of self compared on the index-less `None` path"""
     counter = limit = None
@@ -188,16 +210,30 @@ def progress(ctx, F):
             over_iter = ht["k"] == "call" and mir.callee_decl(ht) == "std::iter::Iterator::next"
             it_ty = ht["args"][0]["p"]["ty"] if over_iter and ht["args"][0]["k"] in ("copy", "move") else ""
             in_memory = any(x in it_ty for x in ("std::slice::Iter", "std::vec::IntoIter", "std::iter::Map", "std::iter::Zip", "std::slice::Windows"))
-            has_read = False
+            read_blocks = set()
             for b in blocks:
                 t = fn["blocks"][b]["term"]
-                if t["k"] == "call":
-                    d = mir.callee_decl(t) or ""
-                    if d.startswith("byteorder::ReadBytesExt::") or d == "std::io::Read::read_exact" or \
-                            (t["dest"]["ty"].startswith("std::result::Result<") and "read" in d):
-                        has_read = True
-            ok = over_iter and (in_memory or has_read)
+                if t["k"] == "call" and performs_read(F, t):
+                    read_blocks.add(b)
+            has_read = bool(read_blocks)
+            # every cycle through the header passes a fallible read: without the reading blocks the header cannot reach itself
+            rest = set(blocks) - read_blocks
+            every_cycle_reads = False
+            if has_read and h in rest:
+                seen_, todo_ = set(), [x for x in mir.succs(fn, h) if x in rest]
+                while todo_:
+                    x = todo_.pop()
+                    if x in seen_:
+                        continue
+                    seen_.add(x)
+                    todo_ += [y for y in mir.succs(fn, x) if y in rest or y == h]
+                every_cycle_reads = h not in seen_
+            elif has_read:
+                every_cycle_reads = True
+            ok = (over_iter and (in_memory or has_read)) or every_cycle_reads
+            what = it_ty or ("a counter / condition" if not over_iter else "an unknown iterator")
             ctx.ob("C07.progress", "loop in %s" % fn["def"], ok,
-                   "iterates %s%s" % (it_ty or "an unknown iterator", ", every iteration performs a fallible read (bounded by the input length)" if has_read else ""),
+                   "iterates %s%s" % (what, ", every iteration performs a fallible read (bounded by the input length)" if (has_read and (over_iter or every_cycle_reads))
+                                      else (", some cycle through the loop reads nothing" if has_read else "")),
                    site=ctx.site_of(F, fn["def"], h), key="C07.progress|loop|%s|%s" % (fn["def"], it_ty[:60]))
     ctx.extra["reader_loops"] = nl
